@@ -74,14 +74,21 @@ fn find_field<'a>(members: &'a [Member], name: &str) -> Option<&'a Field> {
 
 /// definer kind of a type name as seen by object `o`
 fn definer_of<'a>(u: &'a Universe, o: &Object, ty: &str) -> Option<&'a Definer> {
+    // the same kind and base type in every namespace the object lives in, otherwise the site is ambiguous
+    let mut found: Option<&'a Definer> = None;
     for ns in Ns::all() {
-        if o.in_ns(ns) {
-            if let Some(d) = u.lookup(ns, ty).and_then(|x| x.definer()) {
-                return Some(d);
+        // pasted copies of one source item share its text
+        if u.objects.iter().any(|x| x.file == o.file && x.item == o.item && x.in_ns(ns)) {
+            let d = u.lookup(ns, ty).and_then(|x| x.definer())?;
+            if let Some(f) = found {
+                if f.kind != d.kind || f.base != d.base {
+                    return None;
+                }
             }
+            found = Some(d);
         }
     }
-    None
+    found
 }
 
 fn file_class(u: &Universe, o: &Object) -> &'static str {
